@@ -92,3 +92,572 @@ Section RoutingProofs.
     - unfold call_tapes. cbn [fst]. apply call_loop_tapes.
   Qed.
 End RoutingProofs.
+
+(* ===================================================================== Part B: container *)
+Lemma zlen_app : forall {A} (a b : list A), zlen (a ++ b) = zlen a + zlen b.
+Proof. intros. unfold zlen. rewrite app_length. lia. Qed.
+Lemma zlen_nonneg : forall {A} (l : list A), 0 <= zlen l.
+Proof. intros. unfold zlen. lia. Qed.
+
+Lemma firstn_app_le : forall {A} (n : nat) (a b : list A),
+  (n <= length a)%nat -> firstn n (a ++ b) = firstn n a.
+Proof.
+  intros. rewrite firstn_app. replace (n - length a)%nat with 0%nat by lia.
+  cbn [firstn]. apply app_nil_r.
+Qed.
+Lemma skipn_app_ge : forall {A} (n : nat) (a b : list A),
+  (length a <= n)%nat -> skipn n (a ++ b) = skipn (n - length a) b.
+Proof. intros. rewrite skipn_app, skipn_all2 by lia. reflexivity. Qed.
+Lemma firstn_app_exact : forall {A} (a b : list A), firstn (length a) (a ++ b) = a.
+Proof. intros. rewrite firstn_app_le, firstn_all by lia. reflexivity. Qed.
+Lemma skipn_app_exact : forall {A} (a b : list A), skipn (length a) (a ++ b) = b.
+Proof. intros. rewrite skipn_app_ge, Nat.sub_diag by lia. reflexivity. Qed.
+
+Lemma has_final_app : forall a b, has_final (a ++ b) = has_final a || has_final b.
+Proof. intros. apply existsb_app. Qed.
+Lemma has_final_with_expand : forall t, has_final (with_expand t) = b_final t.
+Proof.
+  intros t. unfold with_expand, expand_of. destruct (b_exp t); cbn; now rewrite orb_false_r.
+Qed.
+
+(* ---- append / += / + / radd / * ---- *)
+Lemma append_spec : forall p t,
+  (snd (append p t) = true <-> has_final (items p) = true /\ b_final t = true) /\
+  (snd (append p t) = true -> fst (append p t) = p) /\
+  (snd (append p t) = false ->
+     items (fst (append p t)) = items p ++ with_expand t /\ marks (fst (append p t)) = marks p).
+Proof.
+  intros p t. unfold append.
+  destruct (has_final (items p)), (b_final t); cbn; intuition congruence.
+Qed.
+
+Lemma iadd_spec : forall p q,
+  (snd (iadd_pipe p q) = true <-> has_final (items p) = true /\ has_final (items q) = true) /\
+  (snd (iadd_pipe p q) = true -> items (fst (iadd_pipe p q)) = items p) /\
+  (snd (iadd_pipe p q) = false -> items (fst (iadd_pipe p q)) = items p ++ items q).
+Proof.
+  intros p q. unfold iadd_pipe.
+  destruct (has_final (items p)), (has_final (items q)); cbn; intuition congruence.
+Qed.
+
+Lemma iadd_t_spec : forall p t,
+  snd (iadd_t p t) = false -> items (fst (iadd_t p t)) = items p ++ with_expand t.
+Proof. intros p t H. unfold iadd_t in *. now apply iadd_spec in H. Qed.
+
+Lemma add_spec : forall p q,
+  (add_pipe p q = None <-> has_final (items p) = true /\ has_final (items q) = true) /\
+  (forall r, add_pipe p q = Some r -> items r = items p ++ items q).
+Proof.
+  intros p q. unfold add_pipe.
+  destruct (has_final (items p)), (has_final (items q)); cbn; split;
+    try (intuition congruence); intros r H; inversion H; reflexivity.
+Qed.
+
+Lemma add_t_spec : forall p t r, add_t p t = Some r -> items r = items p ++ with_expand t.
+Proof. intros p t r H. unfold add_t in H. now apply add_spec in H. Qed.
+
+Lemma radd_spec : forall t p,
+  (radd t p = None <-> has_final (items p) = true /\ b_final t = true) /\
+  (forall r, radd t p = Some r -> items r = with_expand t ++ items p /\ marks r = []).
+Proof.
+  intros t p. unfold radd.
+  destruct (has_final (items p)), (b_final t); cbn; split;
+    try (intuition congruence); intros r H; inversion H; split; reflexivity.
+Qed.
+
+Lemma repeat_list_concat : forall {A} (l : list A) n, repeat_list l n = concat (repeat l n).
+Proof. intros. induction n as [|n IH]; [reflexivity|]. cbn. now rewrite IH. Qed.
+
+Lemma mul_spec : forall p n,
+  (mul p n = None <-> n < 0 \/ has_final (items p) = true) /\
+  (forall r, mul p n = Some r ->
+     items r = concat (repeat (items p) (Z.to_nat n)) /\ marks r = marks p).
+Proof.
+  intros p n. unfold mul. destruct (n <? 0) eqn:E.
+  - split; [split; [intros; left; lia | reflexivity] | discriminate].
+  - destruct (has_final (items p)).
+    + split; [split; [intros; now right | reflexivity] | discriminate].
+    + split.
+      * split; [discriminate | intros [H|H]; [lia | discriminate]].
+      * intros r H. inversion H. cbn. split; [apply repeat_list_concat | reflexivity].
+Qed.
+
+(* ---- insert ---- *)
+Lemma list_insert_in_range : forall {A} (i : Z) (x : A) (l : list A),
+  0 <= i <= zlen l ->
+  list_insert i x l = firstn (Z.to_nat i) l ++ x :: skipn (Z.to_nat i) l.
+Proof.
+  intros A i x l H. unfold list_insert, py_insert_pos.
+  destruct (i <? 0) eqn:E; [lia|]. now rewrite Z.min_l by lia.
+Qed.
+
+Lemma insert_spec : forall p i t,
+  0 <= i <= zlen (items p) -> snd (insert p i t) = false ->
+  items (fst (insert p i t)) =
+    firstn (Z.to_nat i) (items p) ++ with_expand t ++ skipn (Z.to_nat i) (items p).
+Proof.
+  intros p i t Hi. unfold insert.
+  destruct (negb match items p with [] => true | _ => false end && b_final t); [discriminate|].
+  intros _. cbn [fst items].
+  rewrite (list_insert_in_range i t) by exact Hi.
+  unfold with_expand. destruct (expand_of t) as [e|]; [|reflexivity].
+  assert (Hk : (Z.to_nat i <= length (items p))%nat) by (unfold zlen in Hi; lia).
+  rewrite list_insert_in_range.
+  2:{ rewrite zlen_app. unfold zlen in *. cbn [length]. rewrite firstn_length_le by lia. lia. }
+  pose proof (firstn_length_le (items p) Hk) as HL.
+  rewrite <- HL at 1. rewrite firstn_app_exact.
+  rewrite <- HL at 2. rewrite skipn_app_exact. reflexivity.
+Qed.
+
+Lemma insert_raises : forall p i t,
+  snd (insert p i t) = true <-> items p <> [] /\ b_final t = true.
+Proof.
+  intros p i t. unfold insert. destruct (items p) as [|x r]; destruct (b_final t); cbn;
+    intuition congruence.
+Qed.
+
+(* ---- pop ---- *)
+Lemma del_at_length : forall {A} (k : nat) (l : list A),
+  (k < length l)%nat -> length (del_at k l) = (length l - 1)%nat.
+Proof.
+  intros. unfold del_at. rewrite app_length, firstn_length_le, skipn_length by lia. lia.
+Qed.
+
+Lemma nth_error_firstn_lt : forall {A} (l : list A) n k,
+  (k < n)%nat -> nth_error (firstn n l) k = nth_error l k.
+Proof.
+  induction l as [|x r IH]; intros n k H.
+  - now rewrite firstn_nil.
+  - destruct n; [lia|]. destruct k; [reflexivity|]. cbn. apply IH. lia.
+Qed.
+
+Lemma py_index_range : forall n i j, py_index n i = Some j ->
+  0 <= j < n /\ j = (if i <? 0 then n + i else i).
+Proof.
+  intros n i j. unfold py_index.
+  destruct ((0 <=? (if i <? 0 then n + i else i)) && ((if i <? 0 then n + i else i) <? n)) eqn:E;
+    [|discriminate].
+  intros H. inversion H. subst. split; [lia | reflexivity].
+Qed.
+
+(* does pop also remove the entry before position j (the expand_transform of the popped transform)? *)
+Definition pop_partner (l : list bt) (j : Z) : bool :=
+  (j >? 0) && match expand_of (nthz l j), nth_error l (Z.to_nat (j - 1)) with
+              | Some e, Some y => bt_eqb e y
+              | _, _ => false
+              end.
+
+Lemma del_del : forall {A} (l : list A) (k : nat),
+  (S k < length l)%nat -> del_at k (del_at (S k) l) = firstn k l ++ skipn (S (S k)) l.
+Proof.
+  intros A l k H. unfold del_at at 1. unfold del_at.
+  rewrite firstn_app_le by (rewrite firstn_length_le; lia).
+  rewrite firstn_firstn, Nat.min_l by lia. f_equal.
+  assert (HL : length (firstn (S k) l) = S k) by (apply firstn_length_le; lia).
+  rewrite <- HL at 1. apply skipn_app_exact.
+Qed.
+
+Lemma pop_items : forall p i j,
+  py_index (zlen (items p)) i = Some j ->
+  snd (pop p i) = Some (nthz (items p) j) /\
+  items (fst (pop p i)) =
+    (if pop_partner (items p) j
+     then firstn (Z.to_nat (j - 1)) (items p) ++ skipn (Z.to_nat (j + 1)) (items p)
+     else del_at (Z.to_nat j) (items p)).
+Proof.
+  intros p i j H. pose proof (py_index_range _ _ _ H) as [Hr Hj].
+  unfold pop. rewrite H. cbv zeta.
+  assert (Hlen : zlen (del_at (Z.to_nat j) (items p)) = zlen (items p) - 1).
+  { unfold zlen in *. rewrite del_at_length by lia. lia. }
+  assert (Hidx : (if i >=? 0 then i else zlen (del_at (Z.to_nat j) (items p)) + i + 1) = j).
+  { rewrite Hlen. destruct (i <? 0) eqn:E1; destruct (i >=? 0) eqn:E2; lia. }
+  rewrite Hidx.
+  assert (Hp : ((j >? 0) && match expand_of (nthz (items p) j),
+                              nth_error (del_at (Z.to_nat j) (items p)) (Z.to_nat (j - 1)) with
+                        | Some e, Some y => bt_eqb e y | _, _ => false end)
+               = pop_partner (items p) j).
+  { unfold pop_partner. destruct (j >? 0) eqn:Ej; [|reflexivity]. cbn [andb].
+    unfold del_at. rewrite nth_error_app1 by (unfold zlen in *; rewrite firstn_length_le; lia).
+    rewrite nth_error_firstn_lt by lia. reflexivity. }
+  rewrite Hp. destruct (pop_partner (items p) j) eqn:Epp; cbn [fst snd items]; split; try reflexivity.
+  unfold pop_partner in Epp. apply andb_prop in Epp as [Ej _].
+  replace (Z.to_nat j) with (S (Z.to_nat (j - 1))) by lia.
+  rewrite del_del by (unfold zlen in *; lia).
+  replace (Z.to_nat (j + 1)) with (S (S (Z.to_nat (j - 1)))) by lia. reflexivity.
+Qed.
+
+Lemma pop_index_error : forall p i, py_index (zlen (items p)) i = None -> pop p i = (p, None).
+Proof. intros p i H. unfold pop. now rewrite H. Qed.
+
+(* ---- [] ---- *)
+Lemma getitem_spec : forall p i j, py_index (zlen (items p)) i = Some j ->
+  getitem p i = Some (nth (Z.to_nat j) (items p) dflt).
+Proof. intros p i j H. unfold getitem. now rewrite H. Qed.
+
+Lemma skipn_cons_nth : forall (l : list bt) (k : nat),
+  (k < length l)%nat -> skipn k l = nth k l dflt :: skipn (S k) l.
+Proof.
+  induction l as [|x r IH]; intros k H; [cbn in H; lia|].
+  destruct k; [reflexivity|]. cbn [skipn nth]. rewrite IH by (cbn in H; lia). reflexivity.
+Qed.
+
+Lemma slice_elems_step1 : forall fuel (l : list bt) s e,
+  0 <= s -> e <= zlen l -> (Z.to_nat (e - s) <= fuel)%nat ->
+  slice_elems fuel l s e 1 = firstn (Z.to_nat (e - s)) (skipn (Z.to_nat s) l).
+Proof.
+  induction fuel as [|f IH]; intros l s e Hs He Hf.
+  - cbn. replace (Z.to_nat (e - s)) with 0%nat by lia. reflexivity.
+  - cbn [slice_elems]. replace (1 >? 0) with true by reflexivity.
+    destruct (s <? e) eqn:E.
+    + rewrite IH by lia. unfold nthz.
+      rewrite (skipn_cons_nth l (Z.to_nat s)) by (unfold zlen in He; lia).
+      replace (Z.to_nat (e - s)) with (S (Z.to_nat (e - (s + 1)))) by lia.
+      cbn [firstn]. replace (Z.to_nat (s + 1)) with (S (Z.to_nat s)) by lia. reflexivity.
+    + replace (Z.to_nat (e - s)) with 0%nat by lia. reflexivity.
+Qed.
+
+Lemma getslice_step1 : forall p a b,
+  0 <= a <= b -> b <= zlen (items p) ->
+  exists r, getslice p (Some a) (Some b) 1 = Some r /\
+    items r = firstn (Z.to_nat (b - a)) (skipn (Z.to_nat a) (items p)) /\
+    marks r = map_levels (fun v => v - a)
+                (filter (fun kv => (a <=? snd kv) &&
+                                   (snd kv <? (if b =? zlen (items p) then b + 1 else b))) (marks p)).
+Proof.
+  intros p a b Ha Hb. unfold getslice. cbn [Z.eqb]. unfold slice_indices.
+  assert (Ea : adj (zlen (items p)) 1 a = a).
+  { unfold adj. destruct (a <? 0) eqn:E1; [lia|]. destruct (a >=? zlen (items p)) eqn:E2; cbn; lia. }
+  assert (Eb : adj (zlen (items p)) 1 b = b).
+  { unfold adj. destruct (b <? 0) eqn:E1; [lia|]. destruct (b >=? zlen (items p)) eqn:E2; cbn; lia. }
+  rewrite Ea, Eb. eexists. split; [reflexivity|]. cbn [items marks]. split; [|reflexivity].
+  apply slice_elems_step1; try lia. unfold zlen in *. lia.
+Qed.
+
+(* ---- at most one terminal transform ---- *)
+Definition count_final (l : list bt) : nat := length (filter b_final l).
+
+Lemma count_final_app : forall a b, count_final (a ++ b) = (count_final a + count_final b)%nat.
+Proof. intros. unfold count_final. now rewrite filter_app, app_length. Qed.
+Lemma has_final_count : forall l, has_final l = false <-> count_final l = 0%nat.
+Proof.
+  induction l as [|x r IH]; [cbn; tauto|].
+  unfold has_final, count_final in *. cbn. destruct (b_final x); cbn; [split; [discriminate|lia]|exact IH].
+Qed.
+Lemma count_final_with_expand : forall t,
+  count_final (with_expand t) = if b_final t then 1%nat else 0%nat.
+Proof.
+  intros t. unfold with_expand, expand_of, count_final.
+  destruct (b_exp t); cbn; destruct (b_final t); reflexivity.
+Qed.
+Lemma count_final_firstn_skipn : forall l k, (count_final (firstn k l) + count_final (skipn k l))%nat = count_final l.
+Proof. intros. rewrite <- count_final_app, firstn_skipn. reflexivity. Qed.
+Lemma count_final_list_insert : forall i x l,
+  count_final (list_insert i x l) = (count_final l + count_final [x])%nat.
+Proof.
+  intros. unfold list_insert.
+  set (k := Z.to_nat (py_insert_pos (zlen l) i)).
+  change (x :: skipn k l) with ([x] ++ skipn k l).
+  rewrite !count_final_app. pose proof (count_final_firstn_skipn l k). lia.
+Qed.
+Lemma count_final_repeat0 : forall l n, count_final l = 0%nat -> count_final (repeat_list l n) = 0%nat.
+Proof. intros l n H. induction n as [|n IH]; [reflexivity|]. cbn [repeat_list]. rewrite count_final_app. lia. Qed.
+
+Lemma count_final_single : forall x, count_final [x] = if b_final x then 1%nat else 0%nat.
+Proof. intros x. unfold count_final. cbn. destruct (b_final x); reflexivity. Qed.
+Lemma count_final_insert_items : forall i t l,
+  count_final (match expand_of t with
+               | Some e => list_insert i e (list_insert i t l)
+               | None => list_insert i t l end)
+  = (count_final l + (if b_final t then 1 else 0))%nat.
+Proof.
+  intros. unfold expand_of. destruct (b_exp t); rewrite ?count_final_list_insert, ?count_final_single;
+    cbn [b_final]; lia.
+Qed.
+
+Definition one_final (p : pipe) : Prop := (count_final (items p) <= 1)%nat.
+
+Lemma has_final_true_count : forall l, has_final l = true -> (1 <= count_final l)%nat.
+Proof.
+  intros l H. destruct (count_final l) eqn:E; [|lia].
+  apply has_final_count in E. congruence.
+Qed.
+
+Lemma one_final_preserved : forall p, one_final p ->
+  (forall t, one_final (fst (append p t))) /\
+  (forall q, one_final q -> one_final (fst (iadd_pipe p q))) /\
+  (forall q r, one_final q -> add_pipe p q = Some r -> one_final r) /\
+  (forall t r, radd t p = Some r -> one_final r) /\
+  (forall n r, mul p n = Some r -> one_final r) /\
+  (forall i t, one_final (fst (insert p i t))).
+Proof.
+  intros p Hp. unfold one_final in *. repeat split.
+  - intros t. unfold append. destruct (has_final (items p)) eqn:E1; destruct (b_final t) eqn:E2;
+      cbn [andb fst items]; try exact Hp; rewrite count_final_app, count_final_with_expand, E2; try lia.
+    apply has_final_count in E1. lia.
+  - intros q Hq. unfold iadd_pipe.
+    destruct (has_final (items p)) eqn:E1; destruct (has_final (items q)) eqn:E2;
+      cbn [andb fst items]; try exact Hp; rewrite count_final_app;
+      try (apply has_final_count in E1); try (apply has_final_count in E2); lia.
+  - intros q r Hq. unfold add_pipe.
+    destruct (has_final (items p)) eqn:E1; destruct (has_final (items q)) eqn:E2;
+      cbn [andb]; try discriminate; intros H; inversion H; cbn [items]; rewrite count_final_app;
+      try (apply has_final_count in E1); try (apply has_final_count in E2); lia.
+  - intros t r. unfold radd.
+    destruct (has_final (items p)) eqn:E1; destruct (b_final t) eqn:E2;
+      cbn [andb]; try discriminate; intros H; inversion H; cbn [items];
+      rewrite count_final_app, count_final_with_expand, E2;
+      try (apply has_final_count in E1); lia.
+  - intros n r. unfold mul. destruct (n <? 0); [discriminate|].
+    destruct (has_final (items p)) eqn:E1; [discriminate|].
+    intros H. inversion H. cbn [items]. apply has_final_count in E1.
+    rewrite count_final_repeat0 by exact E1. lia.
+  - intros i t. unfold insert. remember (items p) as l eqn:El. clear El.
+    destruct l as [|x r]; destruct (b_final t) eqn:E2; cbn [negb andb fst items];
+      try exact Hp; rewrite count_final_insert_items, E2; cbn in *; lia.
+Qed.
+
+(* ===================================================================== Part C: markers *)
+(* A marker at level v of the list l stands at the boundary (firstn v l | skipn v l).  An edit keeps
+   it "attached" when the prefix before it, or the suffix after it, is unchanged. *)
+Lemma skipn_via : forall {A} (l : list A) (k n : nat),
+  (k <= n)%nat -> (k <= length l)%nat -> skipn n l = skipn (n - k) (skipn k l).
+Proof.
+  intros A l k n H1 H2. rewrite <- (firstn_skipn k l) at 1.
+  rewrite skipn_app_ge by (rewrite firstn_length_le; lia).
+  rewrite firstn_length_le by lia. reflexivity.
+Qed.
+
+Lemma insert_boundaries : forall (l : list bt) i x v,
+  0 <= i <= zlen l -> 0 <= v <= zlen l ->
+  (v < i -> firstn (Z.to_nat (if v >=? i then v + 1 else v)) (list_insert i x l) = firstn (Z.to_nat v) l) /\
+  (i <= v -> skipn (Z.to_nat (if v >=? i then v + 1 else v)) (list_insert i x l) = skipn (Z.to_nat v) l).
+Proof.
+  intros l i x v Hi Hv. rewrite list_insert_in_range by exact Hi.
+  assert (HL : length (firstn (Z.to_nat i) l) = Z.to_nat i)
+    by (apply firstn_length_le; unfold zlen in *; lia).
+  split; intros H.
+  - destruct (v >=? i) eqn:E; [lia|].
+    rewrite firstn_app_le by lia. rewrite firstn_firstn, Nat.min_l by lia. reflexivity.
+  - destruct (v >=? i) eqn:E; [|lia].
+    rewrite skipn_app_ge by lia. rewrite HL.
+    replace (Z.to_nat (v + 1) - Z.to_nat i)%nat with (S (Z.to_nat v - Z.to_nat i)) by lia.
+    cbn [skipn]. symmetry. apply skipn_via; unfold zlen in *; lia.
+Qed.
+
+Lemma delete_boundaries : forall (l : list bt) j v,
+  0 <= j < zlen l -> 0 <= v <= zlen l ->
+  (v <= j -> firstn (Z.to_nat (if v >? j then v - 1 else v)) (del_at (Z.to_nat j) l) = firstn (Z.to_nat v) l) /\
+  (j < v -> skipn (Z.to_nat (if v >? j then v - 1 else v)) (del_at (Z.to_nat j) l) = skipn (Z.to_nat v) l).
+Proof.
+  intros l j v Hj Hv. unfold del_at.
+  assert (HL : length (firstn (Z.to_nat j) l) = Z.to_nat j)
+    by (apply firstn_length_le; unfold zlen in *; lia).
+  split; intros H.
+  - destruct (v >? j) eqn:E; [lia|].
+    rewrite firstn_app_le by lia. rewrite firstn_firstn, Nat.min_l by lia. reflexivity.
+  - destruct (v >? j) eqn:E; [|lia].
+    rewrite skipn_app_ge by lia. rewrite HL.
+    rewrite (skipn_via l (S (Z.to_nat j)) (Z.to_nat v)) by (unfold zlen in *; lia).
+    f_equal. lia.
+Qed.
+
+(* pop that also removes the expand partner at j-1: both deletions together *)
+Lemma delete_pair_boundaries : forall (l : list bt) j v,
+  0 < j < zlen l -> 0 <= v <= zlen l ->
+  let v2 := (let v1 := if v >? j then v - 1 else v in if v1 >? j - 1 then v1 - 1 else v1) in
+  let l2 := firstn (Z.to_nat (j - 1)) l ++ skipn (Z.to_nat (j + 1)) l in
+  (v <= j - 1 -> firstn (Z.to_nat v2) l2 = firstn (Z.to_nat v) l) /\
+  (j < v -> skipn (Z.to_nat v2) l2 = skipn (Z.to_nat v) l) /\
+  (v = j -> v2 = j - 1).
+Proof.
+  intros l j v Hj Hv. cbv zeta.
+  assert (HL : length (firstn (Z.to_nat (j - 1)) l) = Z.to_nat (j - 1))
+    by (apply firstn_length_le; unfold zlen in *; lia).
+  repeat split; intros H.
+  - destruct (v >? j) eqn:E; [lia|]. destruct (v >? j - 1) eqn:E2; [lia|].
+    rewrite firstn_app_le by lia. rewrite firstn_firstn, Nat.min_l by lia. reflexivity.
+  - destruct (v >? j) eqn:E; [|lia]. destruct (v - 1 >? j - 1) eqn:E2; [|lia].
+    rewrite skipn_app_ge by lia. rewrite HL.
+    rewrite (skipn_via l (Z.to_nat (j + 1)) (Z.to_nat v)) by (unfold zlen in *; lia).
+    f_equal. lia.
+  - destruct (v >? j) eqn:E; [lia|]. destruct (v >? j - 1) eqn:E2; lia.
+Qed.
+
+Lemma pop_marks : forall p i j,
+  py_index (zlen (items p)) i = Some j ->
+  marks (fst (pop p i)) =
+    if pop_partner (items p) j
+    then map_levels (fun v => let v1 := if v >? j then v - 1 else v in
+                              if v1 >? j - 1 then v1 - 1 else v1) (marks p)
+    else map_levels (fun v => if v >? j then v - 1 else v) (marks p).
+Proof.
+  intros p i j H. pose proof (py_index_range _ _ _ H) as [Hr Hj].
+  unfold pop. rewrite H. cbv zeta.
+  assert (Hlen : zlen (del_at (Z.to_nat j) (items p)) = zlen (items p) - 1).
+  { unfold zlen in *. rewrite del_at_length by lia. lia. }
+  assert (Hidx : (if i >=? 0 then i else zlen (del_at (Z.to_nat j) (items p)) + i + 1) = j).
+  { rewrite Hlen. destruct (i <? 0) eqn:E1; destruct (i >=? 0) eqn:E2; lia. }
+  rewrite Hidx.
+  assert (Hp : ((j >? 0) && match expand_of (nthz (items p) j),
+                              nth_error (del_at (Z.to_nat j) (items p)) (Z.to_nat (j - 1)) with
+                        | Some e, Some y => bt_eqb e y | _, _ => false end)
+               = pop_partner (items p) j).
+  { unfold pop_partner. destruct (j >? 0) eqn:Ej; [|reflexivity]. cbn [andb].
+    unfold del_at. rewrite nth_error_app1 by (unfold zlen in *; rewrite firstn_length_le; lia).
+    rewrite nth_error_firstn_lt by lia. reflexivity. }
+  rewrite Hp. destruct (pop_partner (items p) j); cbn [fst marks]; [|reflexivity].
+  unfold map_levels. rewrite map_map. reflexivity.
+Qed.
+
+(* + and += : the markers of the right operand are shifted by len(left) *)
+Lemma dict_get_set : forall k k' v m,
+  dict_get k (dict_set k' v m) = if k' =? k then Some v else dict_get k m.
+Proof.
+  intros k k' v m. induction m as [|kv r IH]; [reflexivity|].
+  cbn [dict_set]. destruct (fst kv =? k') eqn:E1; cbn [dict_get fst snd].
+  - destruct (k' =? k) eqn:E2; [reflexivity|]. destruct (fst kv =? k) eqn:E3; [lia|reflexivity].
+  - destruct (fst kv =? k) eqn:E3.
+    + destruct (k' =? k) eqn:E2; [lia|reflexivity].
+    + exact IH.
+Qed.
+
+Lemma dict_get_app : forall k a b,
+  dict_get k (a ++ b) = match dict_get k a with Some v => Some v | None => dict_get k b end.
+Proof.
+  intros k a b. induction a as [|kv r IH]; [reflexivity|].
+  cbn [app dict_get]. destruct (fst kv =? k); [reflexivity|exact IH].
+Qed.
+
+Lemma merge_get_rev : forall other m off k,
+  dict_get k (merge_offset m other off) =
+  match dict_get k (rev other) with Some v => Some (v + off) | None => dict_get k m end.
+Proof.
+  induction other as [|kv r IH]; intros m off k; [reflexivity|].
+  unfold merge_offset in *. cbn [fold_left rev]. rewrite IH, dict_get_app.
+  destruct (dict_get k (rev r)); [reflexivity|].
+  rewrite dict_get_set. cbn [dict_get]. destruct (fst kv =? k); reflexivity.
+Qed.
+
+Lemma dict_get_none : forall k m, ~ In k (map fst m) -> dict_get k m = None.
+Proof.
+  intros k m. induction m as [|kv r IH]; intros H; [reflexivity|].
+  cbn [dict_get]. destruct (fst kv =? k) eqn:E.
+  - exfalso. apply H. left. lia.
+  - apply IH. intros Hin. apply H. now right.
+Qed.
+
+Lemma dict_get_rev : forall k m, NoDup (map fst m) -> dict_get k (rev m) = dict_get k m.
+Proof.
+  intros k m. induction m as [|kv r IH]; intros H; [reflexivity|].
+  cbn [map] in H. inversion H as [|? ? Hnin Hnd]. subst.
+  cbn [rev dict_get]. rewrite dict_get_app, IH by exact Hnd. cbn [dict_get].
+  destruct (fst kv =? k) eqn:E.
+  - assert (fst kv = k) by lia. subst k. now rewrite dict_get_none.
+  - destruct (dict_get k r); reflexivity.
+Qed.
+
+Lemma merge_get : forall other m off k, NoDup (map fst other) ->
+  dict_get k (merge_offset m other off) =
+  match dict_get k other with Some v => Some (v + off) | None => dict_get k m end.
+Proof. intros. rewrite merge_get_rev, dict_get_rev by assumption. reflexivity. Qed.
+
+Lemma add_marks : forall p q r k, add_pipe p q = Some r -> NoDup (map fst (marks q)) ->
+  dict_get k (marks r) =
+  match dict_get k (marks q) with Some v => Some (v + zlen (items p)) | None => dict_get k (marks p) end.
+Proof.
+  intros p q r k H Hnd. unfold add_pipe in H.
+  destruct (has_final (items p) && has_final (items q)); [discriminate|].
+  inversion H. cbn [marks]. now apply merge_get.
+Qed.
+
+Lemma iadd_marks : forall p q k, NoDup (map fst (marks q)) ->
+  dict_get k (marks (fst (iadd_pipe p q))) =
+  match dict_get k (marks q) with Some v => Some (v + zlen (items p)) | None => dict_get k (marks p) end.
+Proof.
+  intros p q k Hnd. unfold iadd_pipe.
+  destruct (has_final (items p) && has_final (items q)); cbn [fst marks]; now apply merge_get.
+Qed.
+
+Lemma app_boundaries : forall (l1 l2 : list bt) v,
+  (0 <= v <= zlen l1 -> firstn (Z.to_nat v) (l1 ++ l2) = firstn (Z.to_nat v) l1) /\
+  (0 <= v -> skipn (Z.to_nat (v + zlen l1)) (l1 ++ l2) = skipn (Z.to_nat v) l2).
+Proof.
+  intros l1 l2 v. split; intros H.
+  - apply firstn_app_le. unfold zlen in *. lia.
+  - rewrite skipn_app_ge by (unfold zlen; lia). f_equal. unfold zlen. lia.
+Qed.
+
+Lemma mul_boundaries : forall (l : list bt) n v, (1 <= n)%nat -> 0 <= v <= zlen l ->
+  firstn (Z.to_nat v) (repeat_list l n) = firstn (Z.to_nat v) l.
+Proof.
+  intros l n v Hn Hv. destruct n; [lia|]. cbn [repeat_list].
+  apply firstn_app_le. unfold zlen in *. lia.
+Qed.
+
+Lemma slice_boundaries : forall (l : list bt) s e v, 0 <= s <= v -> v <= e ->
+  firstn (Z.to_nat (v - s)) (firstn (Z.to_nat (e - s)) (skipn (Z.to_nat s) l))
+  = skipn (Z.to_nat s) (firstn (Z.to_nat v) l).
+Proof.
+  intros l s e v Hs He. rewrite firstn_firstn, Nat.min_l by lia.
+  rewrite firstn_skipn_comm. f_equal. f_equal. lia.
+Qed.
+
+(* ---- remove, when no removed transform brings an expand_transform ---- *)
+Lemma firstn_S_nth : forall (l : list bt) (i : nat), (i < length l)%nat ->
+  firstn (S i) l = firstn i l ++ [nth i l dflt].
+Proof.
+  induction l as [|x r IH]; intros i H; [cbn in H; lia|].
+  destruct i; [reflexivity|]. cbn [firstn nth app]. f_equal. apply IH. cbn in H; lia.
+Qed.
+
+Lemma remove_loop_filter : forall fuel o k (l : list bt) m,
+  (k <= fuel)%nat -> (k <= length l)%nat ->
+  (forall x, In x (firstn k l) -> rmatch o x = true -> expand_of x = None) ->
+  fst (remove_loop fuel o k l m) = filter (fun x => negb (rmatch o x)) (firstn k l) ++ skipn k l.
+Proof.
+  induction fuel as [|f IH]; intros o k l m Hf Hk Hx.
+  - replace k with 0%nat by lia. reflexivity.
+  - destruct k as [|i]; [reflexivity|]. cbn [remove_loop].
+    assert (Hi : (i < length l)%nat) by lia.
+    rewrite (firstn_S_nth l i Hi), filter_app. cbn [filter].
+    assert (Hin : In (nth i l dflt) (firstn (S i) l)).
+    { rewrite firstn_S_nth by exact Hi. apply in_or_app. right. now left. }
+    assert (Hpre : forall x, In x (firstn i l) -> rmatch o x = true -> expand_of x = None).
+    { intros x Hxin. apply Hx. rewrite firstn_S_nth by exact Hi. apply in_or_app. now left. }
+    destruct (rmatch o (nth i l dflt)) eqn:E.
+    + rewrite (Hx _ Hin E). cbn [negb app]. rewrite app_nil_r.
+      rewrite IH.
+      * unfold del_at.
+        assert (HL : length (firstn i l) = i) by (apply firstn_length_le; lia).
+        rewrite firstn_app_le by lia. rewrite firstn_firstn, Nat.min_id.
+        f_equal. rewrite <- HL at 1. apply skipn_app_exact.
+      * lia.
+      * rewrite del_at_length by lia. lia.
+      * unfold del_at. rewrite firstn_app_le by (rewrite firstn_length_le; lia).
+        rewrite firstn_firstn, Nat.min_id. exact Hpre.
+    + cbn [negb]. rewrite IH by (try lia; exact Hpre).
+      rewrite <- app_assoc. cbn [app]. f_equal. apply skipn_cons_nth. exact Hi.
+Qed.
+
+Lemma remove_filter : forall p o,
+  (forall x, In x (items p) -> rmatch o x = true -> expand_of x = None) ->
+  items (remove p o) = filter (fun x => negb (rmatch o x)) (items p).
+Proof.
+  intros p o H. unfold remove. cbn [items].
+  rewrite remove_loop_filter; try lia.
+  - rewrite firstn_all, skipn_all. apply app_nil_r.
+  - rewrite firstn_all. exact H.
+Qed.
+
+Lemma insert_marks_in_range : forall p i t v,
+  0 <= i <= zlen (items p) -> 0 <= v <= zlen (items p) ->
+  marks (fst (insert p i t)) = map_levels (fun v => if v >=? i then v + 1 else v) (marks p) /\
+  (v < i -> firstn (Z.to_nat (if v >=? i then v + 1 else v)) (list_insert i t (items p))
+            = firstn (Z.to_nat v) (items p)) /\
+  (i <= v -> skipn (Z.to_nat (if v >=? i then v + 1 else v)) (list_insert i t (items p))
+             = skipn (Z.to_nat v) (items p)).
+Proof.
+  intros p i t v Hi Hv. split.
+  - unfold insert. destruct (negb _ && b_final t); reflexivity.
+  - exact (insert_boundaries (items p) i t v Hi Hv).
+Qed.
